@@ -10,13 +10,28 @@ fn valid(x: f64) -> bool {
     x.is_finite() && !x.is_sign_negative()
 }
 
-pub fn c03_body<const NC: usize, const LEN: usize>(fl: [bool; 8]) {
+/// payload: symbolic f64 (any bit pattern) if selected by the mask, else a fixed power of two
+fn pay(mask: u32, bit: u32, concrete: f64) -> f64 {
+    if mask & (1 << bit) != 0 {
+        kani::any()
+    } else {
+        concrete
+    }
+}
+
+/// SYM: bit mask of the payloads that are symbolic: 0 t, 1 v, 2 rho, 3 pd[0], 4 nt, 5 n[0], 6 x[0], 7 p
+/// (symbolic f64 arithmetic is bit-blasted by CBMC: all eight at once exceed 14 GB, so the all-bit-pattern
+/// quantification is per payload, the others being fixed powers of two)
+pub fn c03_body<const NC: usize, const LEN: usize, const SYM: u32>(fl: [bool; 8]) {
     let [ft, fv, frho, fpd, fnt, fn_, fx, fp] = fl;
     let eos = Arc::new(NoResidual(NC));
-    let (t, v, rho, nt, p): (f64, f64, f64, f64, f64) = (kani::any(), kani::any(), kani::any(), kani::any(), kani::any());
-    let pd: [f64; LEN] = kani::any();
-    let n: [f64; LEN] = kani::any();
-    let x: [f64; LEN] = kani::any();
+    let (t, v, rho, nt, p): (f64, f64, f64, f64, f64) = (pay(SYM, 0, 256.0), pay(SYM, 1, 64.0), pay(SYM, 2, 0.5), pay(SYM, 4, 8.0), pay(SYM, 7, 2.0));
+    let mut pd = [0.25; LEN];
+    let mut n = [4.0; LEN];
+    let mut x = [0.5; LEN];
+    pd[0] = pay(SYM, 3, 0.125);
+    n[0] = pay(SYM, 5, 2.0);
+    x[0] = pay(SYM, 6, 0.25);
     let pd_arr = Density::from_reduced(Array1::from(pd.to_vec()));
     let n_arr = Moles::from_reduced(Array1::from(n.to_vec()));
     let x_arr = Array1::from(x.to_vec());
@@ -106,12 +121,12 @@ pub fn c03_body<const NC: usize, const LEN: usize>(fl: [bool; 8]) {
 }
 
 macro_rules! c03 {
-    ($name:ident, $nc:expr, $len:expr, $fl:expr) => {
+    ($name:ident, $nc:expr, $len:expr, $sym:expr, $fl:expr) => {
         #[kani::proof]
         #[kani::stub(std::hash::RandomState::new, fixed_random_state)]
         #[kani::unwind(8)]
         fn $name() {
-            c03_body::<$nc, $len>($fl);
+            c03_body::<$nc, $len, $sym>($fl);
         }
     };
 }
@@ -124,7 +139,9 @@ include!("c03_patterns.rs");
 fn c05_trivial_solution_1c() {
     use feos_core::PhaseEquilibrium;
     let eos = Arc::new(NoResidual(1));
-    let (t, v1, n1, v2, n2): (f64, f64, f64, f64, f64) = (kani::any(), kani::any(), kani::any(), kani::any(), kani::any());
+    // T and V fixed (powers of two), amounts symbolic: every pair of densities is reachable through N
+    let (t, v1, v2): (f64, f64, f64) = (256.0, 1.0, 1.0);
+    let (n1, n2): (f64, f64) = (kani::any(), kani::any());
     let s1 = State::new_nvt(&eos, Temperature::from_reduced(t), Volume::from_reduced(v1), &Moles::from_reduced(arr1(&[n1])));
     let s2 = State::new_nvt(&eos, Temperature::from_reduced(t), Volume::from_reduced(v2), &Moles::from_reduced(arr1(&[n2])));
     if let (Ok(a), Ok(b)) = (&s1, &s2) {
